@@ -625,4 +625,66 @@ def Simple.toQuery : Simple → Query
 /-- `select(simple)` from a start element: the descendants for which the selector holds, in document order -/
 def cssSpec (s : Simple) (ax : List Elem) : List Elem := ax.filter s.holds
 
+/-! ## Forwarding glue: how the wrappers hand their arguments on
+
+The definitions above take for granted *which* method each wrapper forwards to and *which* argument lands in *which*
+parameter (`findOneFam` = the plural method of the same axis with `limit = 1`; `callImpl` = `find_all` with the same
+six arguments; `famQuery .parents` has no string; `axisH`/`axis` per family). `forwardSpec` writes that down per wrapper;
+`translate/parts_c10.py` reads the actual forwarding calls out of the live source (through `ast`) into
+`BS.Gen.Search.c10Forwarders`, and `Props/C10.lean` checks the whole generated table against `forwardSpec`. Encoding of a
+value: `p:x` the wrapper's own parameter `x`, `c:v` the constant `v`, `a:x` the attribute `self.x`, `l:x|!r:y` a local that
+is `self.x`, or `self.y` when parameter `r` is false. -/
+
+/-- what each parameter of the callee receives: positional arguments in order, then keyword arguments -/
+def bindArgs (calleeParams args : List String) (kwargs : List (String × String)) : List (String × String) :=
+  calleeParams.zip args ++ kwargs
+
+structure ForwardSpec where
+  callee : String
+  /-- the bindings that matter for the search (the warning bookkeeping `_stacklevel` is left free) -/
+  binding : List (String × String)
+  deriving Repr, DecidableEq
+
+def sameThree : List (String × String) := [("name", "p:name"), ("attrs", "p:attrs"), ("string", "p:string")]
+
+/-- the documented forwarding of every wrapper of the `find_*` family, `Tag.__call__`, `Tag.select`, `Tag.select_one` -/
+def forwardSpec : String → Option ForwardSpec
+  | "find_next" => some ⟨"self._find_one", ("method", "a:find_all_next") :: sameThree⟩
+  | "find_next_sibling" => some ⟨"self._find_one", ("method", "a:find_next_siblings") :: sameThree⟩
+  | "find_previous" => some ⟨"self._find_one", ("method", "a:find_all_previous") :: sameThree⟩
+  | "find_previous_sibling" => some ⟨"self._find_one", ("method", "a:find_previous_siblings") :: sameThree⟩
+  | "_find_one" => some ⟨"method", sameThree ++ [("limit", "c:1")]⟩
+  | "find_all_next" => some ⟨"self._find_all", sameThree ++ [("limit", "p:limit"), ("generator", "a:next_elements")]⟩
+  | "find_all_previous" => some ⟨"self._find_all", sameThree ++ [("limit", "p:limit"), ("generator", "a:previous_elements")]⟩
+  | "find_next_siblings" => some ⟨"self._find_all", sameThree ++ [("limit", "p:limit"), ("generator", "a:next_siblings")]⟩
+  | "find_previous_siblings" =>
+    some ⟨"self._find_all", sameThree ++ [("limit", "p:limit"), ("generator", "a:previous_siblings")]⟩
+  | "find_parents" =>
+    some ⟨"self._find_all", [("name", "p:name"), ("attrs", "p:attrs"), ("string", "c:None"), ("limit", "p:limit"),
+                             ("generator", "l:parents")]⟩
+  | "find_parent" => some ⟨"self.find_parents", [("name", "p:name"), ("attrs", "p:attrs"), ("limit", "c:1")]⟩
+  | "find_all" =>
+    some ⟨"self._find_all", sameThree ++ [("limit", "p:limit"), ("generator", "l:descendants|!recursive:children")]⟩
+  | "find" => some ⟨"self.find_all", sameThree ++ [("recursive", "p:recursive"), ("limit", "c:1")]⟩
+  | "__call__" => some ⟨"self.find_all", sameThree ++ [("recursive", "p:recursive"), ("limit", "p:limit")]⟩
+  | "select" => some ⟨"self.css.select", [("select", "p:selector"), ("namespaces", "p:namespaces"), ("limit", "p:limit")]⟩
+  | "select_one" => some ⟨"self.css.select_one", [("select", "p:selector"), ("namespaces", "p:namespaces")]⟩
+  | _ => none
+
+def forwardedNames : List String :=
+  ["find_next", "find_all_next", "find_next_sibling", "find_next_siblings", "find_previous", "find_all_previous",
+   "find_previous_sibling", "find_previous_siblings", "find_parent", "find_parents", "_find_one", "find", "find_all",
+   "__call__", "select", "select_one"]
+
+/-- one row of the generated table agrees with `forwardSpec`: right callee, `**kwargs` forwarded, no parameter bound
+    twice, no more positional arguments than parameters, and every binding that matters is the documented one -/
+def checkForward (name callee : String) (calleeParams args : List String) (kwargs : List (String × String))
+    (starKw : Bool) : Bool :=
+  match forwardSpec name with
+  | none => false
+  | some sp =>
+    callee == sp.callee && starKw && decide (args.length ≤ calleeParams.length)
+      && decide ((bindArgs calleeParams args kwargs).map (·.1)).Nodup
+      && sp.binding.all (fun kv => (bindArgs calleeParams args kwargs).lookup kv.1 == some kv.2)
+
 end BS.Search
